@@ -38,8 +38,15 @@ TIME_BUDGET = {'quick': 60, 'thorough': 600}
 
 
 def make_model(rng, n_cond):
-    kind = gen.pick(rng, ['fixed', 'weighted', 'fixed_stack', 'interpolate'])
+    kind = gen.pick(rng, ['fixed', 'weighted', 'fixed_stack', 'interpolate', 'fixed_int'])
     basis = gen.rdm_vectors(rng, 3, n_cond, 'eucl')
+    if kind == 'fixed_int':
+        # squared distances of points with whole-number coordinates, stored in an integer vector (the library's own tests
+        # build fixed models from integer arrays)
+        pts = rng.integers(-3, 4, size=(n_cond, n_cond))
+        d = ((pts[:, None, :] - pts[None, :, :]) ** 2).sum(-1)
+        vec = d[np.triu_indices(n_cond, 1)].astype(np.int64)
+        return ModelFixed('fi', vec.copy()), None, vec.astype(float), kind
     if kind == 'fixed':
         return ModelFixed('fx', RDMs(basis[:1].copy())), None, basis[0], kind
     if kind == 'fixed_stack':
@@ -67,7 +74,9 @@ def run_case(ctx):
     cond_input = gen.pick(rng, ['vector', 'matrix'])
     sig = dict(model=mkind, cond_input=cond_input, n_part=n_part, n_sim=n_sim, small=n_cond <= 2, square=n_ch == n_cond)
     # ---- design
-    cond_vec, part_vec = make_design(n_cond, n_part)
+    # the numbers of conditions / partitions as Python ints, numpy integers or 0-d arrays
+    held = [lambda n: n, lambda n: np.int64(n), lambda n: np.array(n)][int(rng.integers(3))]
+    cond_vec, part_vec = make_design(held(n_cond), held(n_part))
     ctx.case('design', sig)
     ok = len(cond_vec) == n_cond * n_part == len(part_vec)
     for p in range(n_part):
